@@ -1009,6 +1009,13 @@ class Engine:
                 from . import mutstate
 
                 ns.__dict__["old_" + pname] = mutstate.snapshot(pval)  # pre-state of a materialised (mutable) argument
+        for pname in getattr(contract.impl, "mutates", None) or []:
+            # collections received as parameters that the contract allows the function to mutate in place
+            from . import ext_reader
+
+            pval = args[pname]
+            pval.fresh = True
+            ns.__dict__["old_" + pname] = ext_reader.snapshot_collection(pval)
         ns.__dict__["old"] = make_old_view(ns, ns.__dict__.get("old"))
         if self_obj is not None and not is_init:
             for label, inv in self.class_invariants(ctx, self_obj):
@@ -2163,6 +2170,12 @@ class Engine:
                     ns.__dict__["old_" + pname] = mutstate.snapshot(pval)  # pre-state of a materialised (mutable) argument
                 elif getattr(contract.impl, "publishes_args", False):
                     mutstate.publish(self, ctx, pval)  # a fresh immutable object handed to a constructor that keeps it
+        for pname in getattr(contract.impl, "mutates", None) or []:
+            from . import ext_reader
+
+            if pname in contract.params:
+                ext_reader.coerce_collection(ctx, nsd[pname], contract.params[pname])
+            ns.__dict__["old_" + pname] = ext_reader.snapshot_collection(nsd[pname])
         if getattr(contract.impl, "publishes_args", False):
             for pname, pval in list(nsd.items()):
                 if pname != "self" and isinstance(pval, PyList):  # a literal list of fresh immutable objects that is kept
@@ -2248,10 +2261,19 @@ class Engine:
                     if k is not None:
                         nsd["self"].fields[fname] = ctx.fresh_kind("havoc." + fname, k)
                 V.bind_owner(nsd["self"])
+            if getattr(contract.impl, "havoc_heap", False):
+                from . import ext_reader
+
+                ext_reader.heap_havoc(ctx)  # the callee may fill caches of the ghost heap (never clears them)
             hv = getattr(contract.impl, "havoc", None)
             if hv is not None:
                 # fields of materialised objects reachable from the arguments that the callee may assign
                 for hentry in self.run_spec(ctx, hv, ns):
+                    if isinstance(hentry[0], (SymSet, SymMap)):
+                        from . import ext_reader
+
+                        ext_reader.havoc_in_place(ctx, hentry[0], "havoc.%s" % (hentry[1] if len(hentry) > 1 else "collection"))
+                        continue
                     hobj, fname = hentry[0], hentry[1]
                     if not isinstance(hobj, Obj) or hobj.fields is None:
                         raise EngineLimit("havoc of a field of a non-materialised object")
